@@ -16,6 +16,7 @@ VL == INSTANCE VerdictLib
 
 VARIABLES l, tid, q, verdicts
 tvars == <<l, tid, q, verdicts>>
+AddV(vs) == IF VL!Record(vs) THEN verdicts + Len(vs) ELSE verdicts   \* verdicts: a counter; the records live in a TLC register
 
 Q == INSTANCE UnAckQueue WITH MaxLen <- 0, MaxOps <- 0, KSet <- {}, IdSlack <- 1, PSet <- {}, Emit <- FALSE,
                               ret <- 0, pushed <- <<>>, popped <- <<>>, hist <- <<>>, nextp <- 0
@@ -30,7 +31,6 @@ ToRet(r) == CASE r.kind = "nil"  -> Q!Nil
               [] r.kind = "many" -> Q!Many(ToQ(r.v))
 
 Verdict(clause, detail) == [prop |-> "C17", clause |-> clause, sig |-> detail.op, tid |-> tid, idx |-> l, detail |-> detail]
-AddV(vs) == VL!AddVTo(verdicts, vs)
 
 Ev(n) == l <= Len(Trace) /\ Trace[l].ev = n
 
@@ -67,11 +67,11 @@ T_Op == /\ Ev("op")
         /\ l' = l + 1 /\ UNCHANGED tid
 
 T_End == /\ Ev("end")
-         /\ PrintT(<<"VERDICTS", ToJson(verdicts)>>)
+         /\ PrintT(<<"VERDICTS", ToJson(VL!All)>>)
          /\ PrintT(<<"CONSUMED", l>>)
          /\ l' = l + 1 /\ UNCHANGED <<tid, q, verdicts>>
 
-TraceInit == l = 1 /\ tid = 0 /\ q = <<>> /\ verdicts = <<>>
+TraceInit == l = 1 /\ tid = 0 /\ q = <<>> /\ verdicts = 0 /\ VL!InitV
 TraceNext == T_Reset \/ T_Op \/ T_End
 TraceSpec == TraceInit /\ [][TraceNext]_tvars
 =============================================================================
